@@ -36,7 +36,8 @@ Spec == Init /\ [][Next]_vars
 
 Result == IF s.st = "failed" THEN <<"err">> ELSE <<"ok", s.recs>>
 \* the loop computes the declarative reading
-LoopIsRef == (phase = "end" /\ (errAt = 0 \/ errKind = "Interrupted")) => Result = ReadRef(lines)
+LoopIsRef == /\ (phase = "end" /\ (errAt = 0 \/ errKind = "Interrupted")) => Result = ReadRef(lines)
+             /\ BlocksOf(lines, 1, <<>>) = BlocksOfRef(lines, 1, <<>>)     \* fold = recursion
 ErrorFails == (phase = "end" /\ errAt # 0 /\ errKind # "Interrupted") => Result = <<"err">>
 \* one record per PKGNAME= line when the read succeeds
 OnePerName == (phase = "end" /\ s.st = "done") =>
